@@ -32,7 +32,7 @@ let () =
           L.iter (fun (i, _) -> ignore (hv i)) st.ExprGen.hoists;
           if !outside then "SKIP"
           else
-            let g = Upt.guard_den root hv r in
+            let g = Upt.guard_den [] (fun _ -> Upt.UNone) root hv r in
             (if g then "G1" else "G0") ^ "|" ^ enc_str (Str.join [n_of_int 59] st.ExprGen.stmts) ^ "|" ^
             enc_str (ExprGen.guard_str [] false lit_str r)
         with Outside -> "SKIP")
